@@ -31,9 +31,9 @@ func c02(c *Ctx) {
 	dirty := p.Writes("litefs.DB.dirtyPageSet[]")
 	c.Guarded("dirty-track/aligned", wd, wpage, gs(GP("((p4 % p0.pageSize) == 0)", true)), 1, "a database write is accepted only when its offset is page-aligned", "per-page checksums and dirty tracking assume whole pages")
 	c.Guarded("dirty-track/one-page", wd, wpage, gs(GP("(builtin.len(p3) == p0.pageSize)", true)), 1, "a database write is accepted only when it is exactly one page", "")
-	c.BeforeG("dirty-track/recorded", wd, wpage, dirty, gs(GP("(0 == litefs.(*DB).Mode(p0))", false)), 1,
-		"in rollback mode the page number is recorded in the dirty set before the page is written", "a written page missing from the dirty set is missing from the LTX: replicas diverge silently")
-	c.Guarded("dirty-track/rollback-mode-only", wd, dirty, gs(GP("(0 == litefs.(*DB).Mode(p0))", true)), 1, "the dirty set is written under Mode()==DBModeRollback", "")
+	c.Before("dirty-track/recorded", wd, wpage, dirty, 1,
+		"the page number is recorded in the dirty set before the page is written - in every journal mode (the transaction that leaves WAL mode rewrites page 1 under a rollback journal while the recorded mode is still WAL)", "a written page missing from the dirty set is missing from the LTX: replicas fail the post-apply checksum")
+	c.Expect("dirty-track/mode-independent", fmt.Sprint(p.CountGuardEdges(c.F(wd), G(`.*litefs\.\(\*DB\)\.Mode\(p0\).*`, true))+p.CountGuardEdges(c.F(wd), G(`.*litefs\.\(\*DB\)\.Mode\(p0\).*`, false))), "0", "... and no branch of WriteDatabaseAt depends on the recorded journal mode", "")
 	fn := c.F(wd)
 	for _, in := range Instrs(fn, dirty) {
 		if mu, ok := in.(*ssa.MapUpdate); ok {
@@ -42,7 +42,8 @@ func c02(c *Ctx) {
 	}
 	c.ExpectAll("dirty-track/pgno-written", c.CallArgs(wd, wpage, 2), pat(pgno), 1, "the page written is the page recorded", "")
 	c.OnlyIn("dirty-owners/element-writes", dirty, []string{pat(wd)}, 1, "dirtyPageSet elements are written only by WriteDatabaseAt", "")
-	c.OnlyIn("dirty-owners/replaced", p.Writes("litefs.DB.dirtyPageSet"), []string{pat("litefs.NewDB"), pat("litefs.(*DB).invalidateJournal")}, 2, "dirtyPageSet is replaced only by NewDB and invalidateJournal", "clearing it anywhere else drops pages of an open transaction")
+	c.OnlyIn("dirty-owners/replaced", p.Writes("litefs.DB.dirtyPageSet"), []string{pat("litefs.NewDB"), pat("litefs.(*DB).invalidateJournal"), pat("litefs.(*DB).CommitWAL")}, 3, "dirtyPageSet is replaced only by NewDB, invalidateJournal and (checkpoint-written pages) at the end of a WAL commit", "clearing it anywhere else drops pages of an open transaction")
+	c.Before("dirty-owners/wal-commit-clears-last", "litefs.(*DB).CommitWAL", p.Writes("litefs.DB.dirtyPageSet"), p.PlainCalls("litefs.OS.Rename"), 1, "CommitWAL resets the set only after its LTX file was published", "")
 
 	// ---- commit detection ----
 	cj := "litefs.(*DB).CommitJournal"
